@@ -146,13 +146,51 @@ def values():
     return _VALUES
 
 
-def _obs_call(el, v):
+def _mutate(r, depth=0, skip=frozenset()):
+    """Aliasing probe: deface a returned result in place (append to lists, add members).
+    A later call must not see any of it."""
+    from statham.schema.elements import Object
+    done = False
+    if depth > 6 or id(r) in skip:
+        return False     # raw defaults are returned as-is by design: not ours to deface
+    if isinstance(r, list):
+        for x in list(r):
+            done = _mutate(x, depth + 1, skip) or done
+        r.append("__mutated__")
+        return True
+    if isinstance(r, Object):
+        for x in list(r._dict.values()):
+            done = _mutate(x, depth + 1, skip) or done
+        r._dict["__mutated__"] = 1
+        return True
+    if isinstance(r, dict):
+        for x in list(r.values()):
+            done = _mutate(x, depth + 1, skip) or done
+        r["__mutated__"] = 1
+        return True
+    return done
+
+
+def _obs_call(el, v, probe=True, skip=frozenset()):
     k, r = drive.call(el, v)
     if k == "ok":
         try:
-            return {"kind": "ok", "out": drive.project(r)}
+            p1 = drive.project(r)
         except Exception as exc:  # projection failure = unknown result shape
             return {"kind": "other:unprojectable", "out": None, "msg": repr(exc)[:200]}
+        if probe and _mutate(r, 0, skip):
+            k2, r2 = drive.call(el, v)
+            try:
+                p2 = drive.project(r2) if k2 == "ok" else None
+                stable = k2 == "ok" and norm_real(p2) == norm_real(p1)
+            except Exception:
+                p2, stable = None, False
+            if not stable:
+                # report what the second call returned: it carries the leaked mutation
+                if k2 == "ok" and p2 is not None:
+                    return {"kind": "ok", "out": p2, "unstable": True}
+                return {"kind": "other:unstable-" + k2, "out": None, "unstable": True}
+        return {"kind": "ok", "out": p1}
     return {"kind": k, "out": None, "msg": str(r)[:160]}
 
 
@@ -171,22 +209,23 @@ def replay_state(state):
         obs["strip"] = k2
     if kind != "ok":
         return obs
+    skip = drive.default_ids(el)
     for v in pyvals:
-        obs["calls"].append(_obs_call(el, v))
-    obs["np"] = _obs_call(el, NotPassed())
+        obs["calls"].append(_obs_call(el, v, skip=skip))
+    obs["np"] = _obs_call(el, NotPassed(), skip=skip)
     edef = getattr(el, "default", NotPassed())
     if isinstance(edef, NotPassed):
         obs["edef"] = codec.NotPassedMarker()
     else:
         obs["edef"] = copy.deepcopy(edef)
-        obs["dconv"] = _obs_call(el, copy.deepcopy(edef))
+        obs["dconv"] = _obs_call(el, copy.deepcopy(edef), skip=skip)
     for src, _pred in state.get("dobs", []):
         ps = sj["properties"][src]
         k3, pel = drive.parse_labelled(ps)
         if k3 != "ok":
             obs["dobs"].append((src, {"kind": "parse:" + k3, "out": None}))
         else:
-            obs["dobs"].append((src, _obs_call(pel, ps["default"])))
+            obs["dobs"].append((src, _obs_call(pel, ps["default"], skip=drive.default_ids(pel))))
     return obs
 
 
